@@ -219,6 +219,9 @@ pub fn expected_reply(c: &CReq, it: &Value, ord: usize, script_written: &[usize]
         ("MethodNotFound", _) => {
             json!({"error": "org.varlink.service.MethodNotFound", "parameters": {"method": c.method}})
         }
+        ("MethodNotImplemented", _) => {
+            json!({"error": "org.varlink.service.MethodNotImplemented", "parameters": {"method": c.method}})
+        }
         ("InterfaceNotFound", "method") => {
             json!({"error": "org.varlink.service.InterfaceNotFound", "parameters": {"interface": c.method}})
         }
@@ -284,7 +287,7 @@ fn script_written(c: &CReq, results: &Value) -> Vec<usize> {
     let mut v = Vec::new();
     if let Some(rs) = results.as_array() {
         for (idx, s) in c.script.iter().enumerate() {
-            if matches!(s.as_str(), "r" | "R" | "e") && rs.get(idx).and_then(|x| x.as_str()) == Some("ok") {
+            if matches!(s.as_str(), "r" | "R" | "e" | "n") && rs.get(idx).and_then(|x| x.as_str()) == Some("ok") {
                 v.push(idx + 1);
             }
         }
